@@ -1,19 +1,19 @@
 #!/venv/bin/python
-"""C08 finding (known, not fixed): brew(psms, rng=<seed>) with the default model is not reproducible.
+"""F31 (property C08; repaired in /repo 611ab32): brew(psms, rng=<seed>) with the default model was not reproducible.
 
 Property C08: "With a fixed seed, repeating an analysis in the same process or in a fresh interpreter ... yields
 bit-identical fold assignments, model coefficients, scores and result files."
 
-brew() threads its generator into the model (`model.rng = rng`, mokapot/brew.py 117-121), but when no model is given
-it builds `PercolatorModel()` first (brew.py 109-110), and PercolatorModel.__init__ (mokapot/model.py 434-441) draws the
-random_state of the KFold used by its hyper-parameter grid search from `np.random.default_rng(None)` - operating-system
-entropy.  The cross-validation split of the grid search, hence the chosen class weights, hence the coefficients of the
-fold models and all scores differ from call to call although `rng` is fixed.  The same holds for any
-`PercolatorModel(...)` constructed without `rng=` and handed to brew(..., rng=seed).
-(The command line is not affected: it constructs PercolatorModel(rng=config.seed).)
+brew() threads its generator into the model (`model.rng = rng`), but when no model was given it built
+`PercolatorModel()` first, and PercolatorModel.__init__ draws the random_state of the KFold used by its hyper-parameter
+grid search from `np.random.default_rng(rng)` - with rng=None operating-system entropy.  The cross-validation split of
+the grid search, hence the chosen class weights, hence the coefficients of the fold models and all scores differed from
+call to call although brew's `rng` was fixed.  611ab32: brew builds its default model with `PercolatorModel(rng=rng)`.
+(Not covered, and not a C08 matter: a PercolatorModel that the CALLER builds without `rng=` has drawn that state before
+brew sees it - the caller left one of the seeds of the analysis open.)
 
-Run:  PYTHONPATH=/repo /venv/bin/python repo_fixes/C08-finding-default-model-cv-seed.py
-exit 1 = the defect shows (two calls with the same seed give different coefficients), 0 = it does not."""
+Run:  PYTHONPATH=/repo /venv/bin/python repo_fixes/F31-repro-default-model-cv-seed.py
+exit 1 = the defect shows (tree before 611ab32: calls with the same seed give different coefficients), 0 = it does not."""
 import logging
 import shutil
 import sys
